@@ -249,3 +249,5 @@ GROUPS = ('N(=O)=O', '[N+](=O)[O-]', 'N=[N+]=[N-]', 'N=N#N', 'N=N=N', 'NN#N', 'C
           'C1=CC(=O)NC=C1', 'c1cc(O)ncc1', 'B(O)O', '[B-](O)(O)O', 'C#CO', 'C=C=O', '[N+](C)=C', 'N(=O)O', 'O[Cl+][O-]', '[Si](C)(C)C',
           'C(=O)Cl', 'OP(=O)(O)O', 'OP(=O)([O-])[O-]', 'C(F)(F)F')
 COUNTER_IONS = ('[Na+]', '[Cl-]', 'Cl', '[K+]', 'CC(=O)O', 'CC(=O)[O-]', '[NH4+]', 'O')
+CATION_GROUPS = ('[NH3+]', '[NH2+]C', '[NH+](C)C', 'C[NH3+]', 'CC[NH2+]C')
+ANIONS = ('[Cl-]', '[Br-]', 'CC(=O)[O-]', 'CS(=O)(=O)[O-]', '[O-]c1ccccc1', 'C(=O)[O-]')
